@@ -1,6 +1,7 @@
 import Fundraising.Generated.Code.Genesis
 import Fundraising.Model.Genesis
 import Fundraising.Proofs.Tie.Pure
+import Fundraising.Proofs.Tie.PureSched
 import Fundraising.Proofs.Tie.Server
 /-
   Tie of the translated genesis validation (`GenesisState.Validate`, `Bid.Validate`,
